@@ -78,9 +78,10 @@ def cases(tier):
                 yield {"kind": "threads", "a": a, "b": list(b), "first": first, "chunk": chunk, "chunks": 8,
                        "bound": 1, "deep": True}
     # operators built WITHOUT the optional object table, re-used over states that mention different objects
+    nt_chunks = 4 if tier == "quick" else 32
     for oi in range(len(NT_CALLS)):
-        for chunk in range(4):
-            yield {"kind": "notable", "op": oi, "chunk": chunk, "chunks": 4, "length": 2 if tier == "quick" else 3}
+        for chunk in range(nt_chunks):
+            yield {"kind": "notable", "op": oi, "chunk": chunk, "chunks": nt_chunks, "length": 2 if tier == "quick" else 3}
     if tier != "quick":
         for pi, (a, b) in enumerate(pairs[:2]):
             for chunk in range(16):
@@ -227,6 +228,21 @@ def do_event(w: WorldC07, e):
         line = "(" + " ".join((name,) + tuple(args)) + ")"
         res = guard(lambda: TrajectoryExporter(w.D).parse_plan(w.P, action_sequence=[line, line]))
         obs = guard(lambda: [observe_state(t.next_state).to_json() for t in res]) if not isinstance(res, Raised) else res
+        if not isinstance(res, Raised) and len(res) >= 1:
+            # exporting (the whole, a tail, the whole again) leaves the triplets' states as they are, their
+            # ':init' / ':state' tag included
+            def tags_of():
+                return [(t.previous_state.is_init, t.previous_state.serialize().split()[0],
+                         t.next_state.is_init, t.next_state.serialize().split()[0]) for t in res]
+            before = guard(tags_of)
+            texts = guard(lambda: ["".join(TrajectoryExporter.export(res)), "".join(TrajectoryExporter.export(res[1:])) if len(res) > 1 else "",
+                                   "".join(TrajectoryExporter.export(res[-1:])), "".join(TrajectoryExporter.export(res))])
+            after = guard(tags_of)
+            if isinstance(before, Raised) or isinstance(after, Raised) or before != after:
+                w.alerts.append(f"exporting a trajectory (whole, tail, last step, whole) changed the init tags of the triplets' "
+                                f"states from {before} to {after}")
+            elif not isinstance(texts, Raised) and texts[0] != texts[3]:
+                w.alerts.append(f"the same trajectory exports differently after its tail was exported: {texts[0][:300]!r} / {texts[3][:300]!r}")
         return ("parse_plan", e[1]), show(obs)
     if kind == "parse_other":
         res = guard(parse_domain, OTHER_T if e[1] == "typed" else OTHER_U)
@@ -337,6 +353,10 @@ def invariant(r, w: WorldC07, hist):
         return False
     for i, (st, val) in enumerate(zip(w.states, w.state_vals)):
         now = guard(observe_state, st)
+        if bool(st.is_init) is not (i == 0):
+            r.fail("state-modified", f"after history {hist} live state #{i} is tagged is_init={st.is_init} (the initial state is "
+                   f"state #0, every other live state is a successor)", i == 0, st.is_init, tags=[hist[-1][0], "init-tag"])
+            return False
         if isinstance(now, Raised) or now != val:
             r.fail("state-modified", f"after history {hist} live state #{i} changed from {val.to_json()} to {show(now)}",
                    val.to_json(), show(now), tags=[hist[-1][0]])
